@@ -5,6 +5,7 @@ import (
 	_ "verif/sim/c02"
 	_ "verif/sim/c03"
 	_ "verif/sim/c08"
+	_ "verif/sim/c16"
 	_ "verif/sim/c17"
 	_ "verif/sim/c19"
 )
